@@ -339,6 +339,20 @@ static void histories(unsigned long long& unit)
 			L.push_back({"Eigensystem(" + n + ")", [=]() { Matrix M(a); auto es = Eigensystem(M); std::string o = mc::hexv(es.first) + "|"; for(auto& v : es.second) for(unsigned i = 0; i < v.Size(); i++) o += mc::hexd(v[i]) + ","; return o; }});
 		}
 	}
+	// one Matrix object that lives through the whole history and is refilled in place (same address, other contents, very different
+	// norms): the answer is that of the contents
+	{
+		static Matrix shared(3, 3, 0.0), shared2(2, 2, 0.0);
+		for(double sc : {1.0, 1e6, 1e-6})
+		{
+			Rows a = A, b = B;
+			for(auto& r : a) for(double& v : r) v *= sc;
+			for(auto& r : b) for(double& v : r) v *= sc;
+			auto es = [](Matrix& M) { auto e = Eigensystem(M); std::string o = mc::hexv(e.first) + "|"; for(auto& v : e.second) for(unsigned i = 0; i < v.Size(); i++) o += mc::hexd(v[i]) + ","; return o + "|" + mc::hexd(M.Determinant()) + "|" + mc::hexd(M.Norm()); };
+			L.push_back({"shared object := " + mc::dec(sc) + "*A; Eigensystem, Determinant, Norm", [=]() { for(int i = 0; i < 3; i++) for(int j = 0; j < 3; j++) shared[i][j] = a[i][j]; return es(shared); }});
+			L.push_back({"second shared object := " + mc::dec(sc) + "*B (assigned); Eigensystem", [=]() { shared2 = Matrix(b); return es(shared2); }});
+		}
+	}
 	long long t = mc::purity("histories", L, mc::thorough() ? 3 : 2, unit);
 	mc::count("eigen_cases", t);
 }
